@@ -83,6 +83,9 @@ def small_table(rng, z, lo, hi, neg_vals=False):
     t = gen_table(rng, z, lo, hi, nvi=rng.choice([1, 1, 2, 3]), nio=rng.randint(2, 4), vmax=20.0, imax=1.0)
     if neg_vals:
         t[z] = [[signed(rng, v, 0.3) for v in row] for row in t[z]]
+    elif z == "ig" and rng.random() < 0.15:
+        r_, c_ = rng.randrange(len(t[z])), rng.randrange(len(t[z][0]))
+        t[z][r_][c_] = rng.choice([0.0, 0])       # no ground current at one operating point: zero is not negative
     if rng.random() < 0.3:
         t["vi"] = [signed(rng, v, 0.4) for v in t["vi"]]
     if rng.random() < 0.2:
